@@ -9916,6 +9916,7 @@ bool SoPlexBase<R>::writeDualFileReal(const char* filename, const NameSet* rowNa
    SPxLPBase<R> dualLP;
    _realLP->buildDualProblem(dualLP);
    dualLP.setOutstream(spxout);
+   dualLP.setTolerances(_realLP->tolerances());   // writeMPS reads the zero tolerance of the LP it writes
 
    // swap colnames and rownames
    dualLP.writeFileLPBase(filename, colNames, rowNames, nullptr, writeZeroObjective);
